@@ -211,6 +211,28 @@ func Generate(seed uint64, id, family string) *sdl.Program {
 			}
 			t.Points = append(append([]*sdl.Point{pre}, t.Points...), post)
 		}
+		// two component types of identical layout (nothing but the handle): a name registered for
+		// the one is requested through a pointer field of the other - convertible, not assignable
+		if r.p(0.3) && len(p.Duplicates()) == 0 {
+			a := &sdl.Type{Name: id + "TWa", Init: r.p(0.3)}
+			b := &sdl.Type{Name: id + "TWb", Lazy: r.p(0.3)}
+			var holders []*sdl.Type
+			for _, t := range p.Types {
+				if !t.Zero && !sdl.IsAlt(t.Name) {
+					holders = append(holders, t)
+				}
+			}
+			if len(holders) != 0 {
+				n := len(p.Instances)
+				p.Types = append(p.Types, a, b)
+				p.Instances = append(p.Instances, &sdl.Instance{ID: fmt.Sprintf("c%d", n), Type: a.Name, Alias: "twin"})
+				if r.p(0.5) {
+					p.Instances = append(p.Instances, &sdl.Instance{ID: fmt.Sprintf("c%d", n+1), Type: b.Name})
+				}
+				h := pick(r, holders)
+				h.Points = append(h.Points, &sdl.Point{Field: "FT", Kind: sdl.KPtr, Target: b.Name, Sel: sdl.SelName, Name: "twin", Optional: r.p(0.5)})
+			}
+		}
 		for _, i := range p.Instances {
 			if r.p(0.3) {
 				i.Preset = true
